@@ -16,7 +16,7 @@ Both debug and release builds in the thorough tier."""
 import json, os, random, re, collections, itertools
 import vlib, unwindlib
 
-HEADER = '''class Obj0 { init() { self.f = 1; } m(a) { return a; } str() { return "obj0"; } }
+HEADER = '''class Obj0 { init() { self.f = 1; } m(a) { return a; } }
 fn plainfn(a) { return a; }
 fn plainfn0() { return 1; }
 fn plainfn2(a, b) { return a; }
@@ -54,8 +54,6 @@ RECV = {
     "Module": ["math"], "RegExp": ['RegExp("a+")', 'RegExp("(a)(b)?")'],
 }
 
-ARITY_RE = re.compile(r" expected (at least |at most )?\d+ argument\(s\) but received \d+\.$")
-KIND_RE = re.compile(r"'s parameter \".*\" required a \w+ but received a \w+\.$")
 SKIP = {("", "exit")}          # exit ends the process: its calls run one per program (see exit_cases)
 
 
@@ -108,16 +106,84 @@ def call_source(n, recv, vals):
     return f"{recv}.{name}({', '.join(vals)})"
 
 
-def observed_verdict(name, line):
-    """line = 'ok' or 'err <Class> <message>'"""
+# ---- how the gate's refusals look is learnt from the VM itself, so that rewording a message is not an alarm
+PROBES_A = [("arity", "clock(1)", "clock"), ("arity", "Error()", "init"), ("arity", "[1].slice(1, 2, 3)", "slice"),
+            ("kind", '"a".has(1)', "has"), ("kind", "[1].slice(nil)", "slice")]
+PROBES_B = [("arity", "assert()", "assert"), ("arity", "ValueError()", "init"), ("arity", '"a".slice(1, 2, 3)', "slice"),
+            ("arity", "[1].insert(1)", "insert"), ("kind", "[1].remove(true)", "remove"), ("kind", '"a".slice("x")', "slice"),
+            ("kind", "assert(1)", "assert")]
+
+
+def generalise(msg, name):
+    """a refusal message of the native `name` -> regex source with the name, numbers, kinds and quoted text left open"""
+    pat = re.escape(msg)
+    pat = pat.replace(re.escape(name), "\x00NAME\x00")
+    pat = re.sub(r"\d+", r"\\d+", pat)
+    pat = re.sub(r'\\"[^"]*\\"', '"[^"]*"', pat)
+    pat = re.sub(r"\b(object|boolean|number|string|callable|iterator|nil)\b", r"\\w+", pat)
+    return pat
+
+
+def calibrate(binary):
+    """-> (patterns {verdict: [regex source with NAME]}, trusted).  Learnt from PROBES_A, trusted if they also
+    recognise every refusal of PROBES_B (other natives, other counts)."""
+    def run(probes):
+        src = "\n".join(f'try {{ {call}; print("#~", {k}, "ok"); }} catch e {{ print("#~", {k}, "err", e.cls().name(), e.message); }}' for k, (_, call, _) in enumerate(probes))
+        r = vlib.run_batch(binary, [{"id": "cal", "files": {"/v/main.lay": src}, "main": "/v/main.lay"}], per_case_timeout=30)["cal"]
+        out = {}
+        for line in r.get("stdout", "").splitlines():
+            parts = line.split(" ", 4)
+            if len(parts) >= 3 and parts[0] == "#~" and parts[1].isdigit():
+                out[int(parts[1])] = line.split(" ", 2)[2]
+        return out
+    pats = {"arity": [], "kind": []}
+    got = run(PROBES_A)
+    for k, (verdict, call, name) in enumerate(PROBES_A):
+        line = got.get(k, "")
+        if not line.startswith("err "):
+            return pats, False
+        msg = (line.split(" ", 2) + ["", ""])[2]
+        p = generalise(msg, name)
+        if p not in pats[verdict]:
+            pats[verdict].append(p)
+    gotb = run(PROBES_B)
+    trusted = True
+    for k, (verdict, call, name) in enumerate(PROBES_B):
+        line = gotb.get(k, "")
+        if not line.startswith("err ") or classify(name, line, pats) != verdict:
+            trusted = False
+    return pats, trusted
+
+
+def classify(name, line, pats):
+    msg = (line.split(" ", 2) + ["", ""])[2]
+    for verdict in ("arity", "kind"):
+        for p in pats[verdict]:
+            if re.fullmatch(p.replace("\x00NAME\x00", re.escape(name)), msg):
+                return verdict
+    return "body"
+
+
+def observed_verdict(name, line, pats):
+    """line = 'ok' or 'err <Class> <message>' -> 'ok' | 'arity' | 'kind' | 'body-error'"""
     if line == "ok":
-        return "body", None
-    _, cls, msg = (line.split(" ", 2) + ["", ""])[:3]
-    if cls == "RuntimeError" and msg.startswith(name + " expected") and ARITY_RE.search(msg):
-        return "arity", cls
-    if cls == "RuntimeError" and ((msg.startswith(name + "'s parameter") and KIND_RE.search(msg)) or msg == "todo"):
-        return "kind", cls
-    return "body", cls
+        return "ok"
+    c = classify(name, line, pats)
+    return c if c != "body" else "body-error"
+
+
+def verdict_mismatch(spec, got, trusted):
+    """is the observation incompatible with the specification's verdict?  When the gate's messages could not be
+    learnt reliably (trusted = False) only the outcomes that need no message are judged."""
+    if spec == "body":
+        return got in ("arity", "kind")
+    # the gate must refuse: a call that went through is always wrong; an error that is not the gate's own refusal
+    # means the body ran (only decidable when the refusals are recognisable)
+    if got == "ok":
+        return True
+    if not trusted:
+        return False
+    return got != spec
 
 
 def build_calls(dump, calls, rnd, variants):
@@ -423,6 +489,8 @@ def run(pid, tier, replay=None):
         built = build_calls(dump, calls, rnd, variants)
         fams = family_programs(rnd, 60 if tier == "quick" else 1500)
         excases = exit_cases(dump, calls, rnd)
+    pats, trusted = calibrate(builds[0][1])
+    v.notes["gate_messages_learnt"] = {"trusted": trusted, "patterns": {k: len(p) for k, p in pats.items()}}
     for label, binary in builds:
         results, crashes = run_matrix(v, binary, built, label)
         for c in built:
@@ -432,8 +500,8 @@ def run(pid, tier, replay=None):
             if line == "crash":
                 continue
             judged += 1
-            got, cls = observed_verdict(c["name"], line)
-            if got != c["verdict"]:
+            got = observed_verdict(c["name"], line, pats)
+            if verdict_mismatch(c["verdict"], got, trusted):
                 mism[(c["owner"], c["name"])] += 1
                 if mism[(c["owner"], c["name"])] <= 2:
                     v.violation(f"[{label}] {c['src']}: Natives.tla says the gate's verdict is '{c['verdict']}' but the VM answered '{line[:160]}' ({got})",
